@@ -226,7 +226,7 @@ pub fn run(ctx: &mut Ctx) {
         }
     }
     // random
-    let per = tier.pick(100, 30_000, 1_000_000) / ctx.nworkers + 1;
+    let per = tier.pick(100, 300_000, 4_000_000) / ctx.nworkers + 1;
     let mut rng = Rng::derive(ctx.seed, 0x0809, ctx.worker as u64);
     for _ in 0..per {
         let ta = rng.below(NTYPES);
